@@ -22,6 +22,7 @@ mod refmodel;
 mod scn;
 mod shrink;
 mod spec;
+mod statics;
 mod sweep;
 mod tzif;
 mod world;
@@ -461,6 +462,16 @@ fn main() {
         std::process::exit(2);
     }
     exec::install_panic_hook();
+    statics::init();
+    let mut ex = world::sync_static_ranges();
+    ex.push(exec::shared_static_range());
+    statics::exclude(ex);
+    {
+        let mut cells = alloc::tls_cells();
+        cells.extend(world::tls_cells());
+        cells.extend(exec::tls_cells());
+        statics::init_tls(cells);
+    }
     // a single request above 64 MiB + 16 x (largest input, < 1 MiB) is refused => recorded abort
     alloc::set_cap(64 * 1024 * 1024 + 16 * (1 << 20));
     tz::verif_hooks::set_clock(world::sim_clock);
